@@ -388,9 +388,10 @@ def finish(run, prop, t0, write_baseline=False):
         'wall_s': round(time.time() - t0, 2),
         'violations': len(run.violations),
     }
-    os.makedirs(os.path.join(VERIF, 'evidence'), exist_ok=True)
-    with open(os.path.join(VERIF, 'evidence', pid + '.json'), 'w') as f:
-        json.dump(ev, f, indent=1, default=str)
+    if not os.environ.get('VERIF_NO_EVIDENCE'):
+        os.makedirs(os.path.join(VERIF, 'evidence'), exist_ok=True)
+        with open(os.path.join(VERIF, 'evidence', pid + '.json'), 'w') as f:
+            json.dump(ev, f, indent=1, default=str)
 
     if write_baseline and exit_code == 0:
         p = os.path.join(VERIF, 'baseline_obligations.json')
